@@ -11,6 +11,7 @@ Next ==
   /\ i' = i + 1
   /\ \E c \in {Trace[i]} : \E bad \in {IF Props = "C02" THEN P!Failing(P!C02T_Clauses(c.cfg, c.h))
                                          ELSE IF Props = "C05" THEN P!Failing(P!C05T_Clauses(c.cfg, c.h))
+                                         ELSE IF Props = "C07" THEN P!Failing(P!C07T_Clauses(c.cfg, c.h))
                                          ELSE P!Failing(P!C20_Clauses(c.cfg, c.h))} :
         /\ (bad # {} => PrintT(<<"FAIL", c.scn, Props, bad>>))
         /\ stats' = [scenarios |-> stats.scenarios + 1, events |-> stats.events + Len(c.h),
